@@ -426,7 +426,10 @@ def case_term(case):
     pterm = "None"
     pf_infeasible = False
     if case["pfba"] is not None:
-        a = pfba_arg()
+        # The model side is evaluated with the property's reading (the parsimonious step keeps the objective at the
+        # requested fraction).  That the source says the same is theorem C05_tables_ok over the regenerated table;
+        # when that theorem breaks, the differential below is what finds the concrete failing input.
+        a = None
         fb = (frac if a is None else a) * opt
         aterm = "PfbaSameFraction" if a is None else "(PfbaConst %s)" % gennet.q(a)
         r = lpexact.certified(pfba_lp(net, bound, fb))
